@@ -128,6 +128,15 @@ def entries():
     add("UMNNCoupling", "transform", lambda: TR.UMNNCouplingTransform(mask4, resnet(), integrand_net_layers=[8, 8], cond_size=3, nb_steps=15), _rn(4), flags={"inv", "umnn"})
     # ---- autoregressive
     add("MaskedAffineAR", "transform", lambda: TR.MaskedAffineAutoregressiveTransform(3, 8, num_blocks=1), _rn(3), flags={"inv"})
+    def wide_maf():
+        # 96 features, every scale around 0.27 (a contracting layer): the determinant, 1e-55, is far below the
+        # single-precision range, its logarithm is an ordinary number
+        m = TR.MaskedAffineAutoregressiveTransform(96, 16, num_blocks=1)
+        with torch.no_grad():
+            m.autoregressive_net.final_layer.bias[0::2] = -3.0
+        return m
+
+    add("MaskedAffineAR/96-features-contracting", "transform", wide_maf, _rn(96), flags={"inv", "large", "illconditioned"})
     add("MaskedAffineAR/ctx+random", "transform", lambda: TR.MaskedAffineAutoregressiveTransform(3, 8, context_features=2, num_blocks=2, use_residual_blocks=False, random_mask=True), _rn(3), _rn(2), flags={"inv", "ctor_random"})
     add("MaskedAffineAR/dropout", "transform", lambda: TR.MaskedAffineAutoregressiveTransform(3, 8, num_blocks=1, dropout_probability=0.3), _rn(3), flags={"inv", "dropout"})
     add("AffineCoupling/dropout", "transform", lambda: TR.AffineCouplingTransform(mask4, resnet(dropout=0.3)), _rn(4), flags={"inv", "dropout"})
@@ -167,6 +176,14 @@ def entries():
     add("ReversePermutation/dim2", "transform", lambda: TR.ReversePermutation(3, dim=2), _rn(2, 3), flags={"inv", "noparams"})
     add("SqueezeTransform", "transform", lambda: TR.SqueezeTransform(2), _rn(2, 4, 2), flags={"inv", "image", "noparams"}, y=_rn(8, 2, 1))
     add("SqueezeTransform/3", "transform", lambda: TR.SqueezeTransform(3), _rn(2, 3, 6), flags={"inv", "image", "noparams"}, y=_rn(18, 1, 2))
+    def householder_badly_scaled():
+        # reflection vectors as training can leave them: norms of 1e4 and 1e-4 (a reflection does not depend on the norm)
+        m = TR.HouseholderSequence(3, 3)
+        with torch.no_grad():
+            m.q_vectors.copy_(torch.tensor([[3.0e3, -8.0e3, 5.0e3], [2.0e-5, 7.0e-5, -4.0e-5], [1.0, -2.0, 0.5]]))
+        return m
+
+    add("HouseholderSequence/badly-scaled-vectors", "transform", householder_badly_scaled, _rn(3), flags={"inv", "linear", "noperturb", "badscale"})
     add("HouseholderSequence/5", "transform", lambda: TR.HouseholderSequence(3, 5), _rn(3), flags={"inv", "linear"})
     add("QRLinear/many-householder", "transform", lambda: TR.QRLinear(2, num_householder=7), _rn(2), flags={"inv", "linear"})
     add("Composite", "transform", lambda: TR.CompositeTransform([TR.LULinear(3, identity_init=False), TR.ReversePermutation(3), TR.MaskedAffineAutoregressiveTransform(3, 8, num_blocks=1), TR.RandomPermutation(3)]), _rn(3), flags={"inv", "ctor_random"})
@@ -200,6 +217,9 @@ def entries():
     # ---- normalisation (ActNorm initialised by one training pass in `prepare`)
     add("ActNorm", "transform", lambda: TR.ActNorm(3), _rn(3), flags={"inv", "needs_init"})
     add("ActNorm/image", "transform", lambda: TR.ActNorm(3), _rn(3, 2, 3), flags={"inv", "needs_init", "image"})
+    # size-one dimensions: grey-scale images, 1x1 feature maps (where a permute + reshape is a view)
+    add("ActNorm/one-channel-image", "transform", lambda: TR.ActNorm(1), _rn(1, 3, 2), flags={"inv", "needs_init", "image"})
+    add("ActNorm/1x1-feature-map", "transform", lambda: TR.ActNorm(3), _rn(3, 1, 1), flags={"inv", "needs_init", "image"})
     add("BatchNorm", "transform", lambda: TR.BatchNorm(3), _rn(3), flags={"inv", "needs_init", "batch_coupled_train"})
     add("BatchNorm/affine-false+eps", "transform", lambda: TR.BatchNorm(3, eps=1e-3, momentum=0.3, affine=False), _rn(3), flags={"inv", "needs_init", "batch_coupled_train", "bigperturb"})
     # ---- elementwise
@@ -256,6 +276,8 @@ def entries():
     add("ConditionalDiagonalNormal/identity-encoder", "dist", lambda: D.ConditionalDiagonalNormal([3]), _rn(3), (lambda n, g: 0.5 * torch.randn(n, 6, generator=g)), flags={"sample", "needs_ctx", "mean", "noparams"})
     add("ConditionalIndependentBernoulli/identity-encoder", "dist", lambda: D.ConditionalIndependentBernoulli([3]), (lambda n, g: (torch.rand(n, 3, generator=g) < 0.5).float()), _rn(3), flags={"sample", "needs_ctx", "discrete", "mean", "noparams"})
     add("ConditionalIndependentBernoulli", "dist", lambda: D.ConditionalIndependentBernoulli([3], context_encoder=torch.nn.Linear(2, 3)), (lambda n, g: (torch.rand(n, 3, generator=g) < 0.5).float()), _rn(2), flags={"sample", "needs_ctx", "discrete", "mean"})
+    add("MADEMoG/one-feature+one-component", "dist", lambda: MADEMoG(1, 8, context_features=2, num_blocks=1, num_mixture_components=1), _rn(1), _rn(2), flags={"sample", "needs_ctx", "nonreparam"})
+    add("MADEMoG/dropout", "dist", lambda: MADEMoG(2, 8, context_features=None, num_blocks=1, num_mixture_components=2, dropout_probability=0.3), _rn(2), flags={"sample", "nonreparam", "dropout"})
     add("MADEMoG/one-feature", "dist", lambda: MADEMoG(1, 8, context_features=None, num_blocks=1, num_mixture_components=3), _rn(1), flags={"sample", "nonreparam"})
     def mog_dominated():
         # one component has died during training: its logit sits far below the others (its weight underflows to
@@ -280,6 +302,8 @@ def entries():
 
     add("Flow(coupling|CondNormal)+frozen-embedding", "flow", frozen_embedding_flow, _rn(3), _rn(2), flags={"sample", "needs_ctx"})
     add("Flow(affine|CondNormal identity-encoder)", "flow", lambda: FL.base.Flow(TR.PointwiseAffineTransform(shift=0.5, scale=2.0), D.ConditionalDiagonalNormal([3])), _rn(3), (lambda n, g: 0.5 * torch.randn(n, 6, generator=g)), flags={"sample", "needs_ctx", "noparams"})
+    # two features: every second random permutation is the identity
+    add("MaskedAutoregressiveFlow/two-features+random-permutations", "flow", lambda: FL.MaskedAutoregressiveFlow(2, 8, num_layers=3, num_blocks_per_layer=1, use_random_permutations=True), _rn(2), flags={"sample", "ctor_random"})
     add("MaskedAutoregressiveFlow", "flow", lambda: FL.MaskedAutoregressiveFlow(3, 8, num_layers=2, num_blocks_per_layer=1, use_random_permutations=True, use_random_masks=True, use_residual_blocks=False, batch_norm_between_layers=True), _rn(3), flags={"sample", "ctor_random", "needs_init", "batch_coupled_train"})
     add("SimpleRealNVP", "flow", lambda: FL.SimpleRealNVP(4, 8, num_layers=2, num_blocks_per_layer=1), _rn(4), flags={"sample"})
     add("SimpleRealNVP/batchnorm-within", "flow", lambda: FL.SimpleRealNVP(4, 8, num_layers=2, num_blocks_per_layer=1, batch_norm_within_layers=True), _rn(4), flags={"sample", "inner_bn", "needs_init", "batch_coupled_train"})
